@@ -26,9 +26,6 @@ package reconciler
 //@ func RWTable.Revision
 //@   trusted
 //@   pure
-//@ func (*DB).ReadTxn
-//@   trusted
-//@   pure
 //@ package reconciler
 
 // ---------------------------------------------------------------------------
